@@ -1,6 +1,8 @@
 (* C20: password detection.  Model side of the correspondence (see harness/src/cmds/password.rs).
-     password ooxml <path> <len> <hdrhex> <dirhex|->   header_from_reader on the first bytes of the
-                                 file, parse_dirs on the directory chain, ooxml_new
+     password ooxmlf <path>      the whole model on the bytes of the file: Cfb.cfb_new (C13's model),
+                                 has_directory, ooxml_new — same answer format as ooxml
+     password ooxml <path> <len> <hdrhex> <dirhex|->   Cfb.header_from_reader on the first bytes of the
+                                 file, parse_dirs on the directory chain, ooxml_new (big files)
          -> names=<hex,…>;has=<0|1>|xlsx=<c>|xlsb=<c>     or  err:<io|ole|invalid|emptyroot>|xlsx=…|xlsb=…
             c = password | pass (the reader goes on to the zip) | panic
      password xls <path> <streamhex>       xls_globals interp_real -> xls=password|done|other|panic|unmodelled
@@ -10,45 +12,65 @@
 open Conv
 open Prelude
 
+(* CfbError classes of Cfb.v *)
 let cls_of_err e =
   match int_of_n e with
-  | 11 -> "io" | 12 -> "ole" | 13 -> "invalid" | 14 -> "emptyroot" | _ -> "other"
+  | 1 -> "io" | 2 -> "ole" | 3 -> "emptyroot" | 5 -> "invalid" | _ -> "other"
 
 let pad_to (l : BinNums.coq_N list) (n : int) : BinNums.coq_N list =
   let k = List.length l in
   if k >= n then l else l @ List.init (n - k) (fun _ -> BinNums.N0)
 
+let ep = List.map n_of_int [69;110;99;114;121;112;116;101;100;80;97;99;107;97;103;101]
+
+let show (cfb : Cfb.dirent list outcome) : string =
+  let part = match cfb with
+    | Ok ds ->
+      Printf.sprintf "names=%s;has=%d"
+        (String.concat "," (List.map (fun d -> hex_of_scalars d.Cfb.d_name) ds))
+        (if PasswordCfb.has_directory ds ep then 1 else 0)
+    | Err e -> "err:" ^ cls_of_err e
+    | Panic -> "panic"
+    | OutOfFuel -> "fuel" in
+  let c = match PasswordCfb.ooxml_new cfb (Ok ()) with
+    | Ok () -> "pass"
+    | Err e -> if int_of_n e = 1 then "password" else "other"
+    | Panic -> "panic"
+    | OutOfFuel -> "fuel" in
+  Printf.sprintf "%s|xlsx=%s|xlsb=%s" part c c
+
+(* header on the first bytes + the directory-array step on the directory chain (big files) *)
 let ooxml args =
   match args with
   | _path :: len :: hdrhex :: dirhex :: _ ->
     let len = int_of_string len in
     let hdr = bytes_of_hex hdrhex in
     let f = pad_to hdr (min len 4096) in
-    let cfb : PasswordCfb.dentry list outcome =
-      match PasswordCfb.header_from_reader f with
+    let cfb : Cfb.dirent list outcome =
+      match Cfb.header_from_reader f with
       | Err e -> Err e
       | Panic -> Panic
       | OutOfFuel -> OutOfFuel
-      | Ok (h, _) ->
-        if dirhex = "?" then Err (n_of_int 2)   (* the rest of Cfb::new fails (told by the driver) *)
-        else
-          let chain = if dirhex = "-" then [] else bytes_of_hex dirhex in
-          PasswordCfb.parse_dirs chain h.PasswordCfb.h_sector_size in
-    let part = match cfb with
-      | Ok ds ->
-        Printf.sprintf "names=%s;has=%d"
-          (String.concat "," (List.map (fun d -> hex_of_scalars (PasswordCfb.d_name d)) ds))
-          (if PasswordCfb.has_directory ds (List.map n_of_int
-               [69;110;99;114;121;112;116;101;100;80;97;99;107;97;103;101]) then 1 else 0)
-      | Err e -> "err:" ^ cls_of_err e
-      | Panic -> "panic"
-      | OutOfFuel -> "fuel" in
-    let c = match PasswordCfb.ooxml_new cfb (Ok ()) with
-      | Ok () -> "pass"
-      | Err e -> if int_of_n e = 1 then "password" else "other"
-      | Panic -> "panic"
-      | OutOfFuel -> "fuel" in
-    Printf.sprintf "%s|xlsx=%s|xlsb=%s" part c c
+      | Ok ((h, _), _) ->
+        let chain = if dirhex = "-" then [] else bytes_of_hex dirhex in
+        PasswordCfb.parse_dirs chain h.Cfb.h_ss in
+    show cfb
+  | _ -> "badargs"
+
+(* the whole model of check_for_password_protected on the bytes of the file *)
+let read_file (path : string) : BinNums.coq_N list =
+  let ic = open_in_bin path in
+  let n = in_channel_length ic in
+  let s = really_input_string ic n in
+  close_in ic;
+  let rec go i acc = if i < 0 then acc else go (i - 1) (n_of_int (Char.code s.[i]) :: acc) in
+  go (n - 1) []
+
+let ooxmlf args =
+  match args with
+  | path :: _ ->
+    let f = read_file path in
+    show (PasswordCfb.cfb_dirs (PasswordCfb.fuel_of_file f) f)
   | _ -> "badargs"
 
 let xls args =
@@ -105,6 +127,7 @@ let recs args =
 let () = Registry.register "password" (fun args ->
     match args with
     | "ooxml" :: rest -> ooxml rest
+    | "ooxmlf" :: rest -> ooxmlf rest
     | "xls" :: rest -> xls rest
     | "ods" :: rest -> ods rest
     | "recs" :: rest -> recs rest
